@@ -263,11 +263,11 @@ def main(tier):
     from checks import layerc
     import time as _time
     _t0 = _time.time()
-    layerc.inlines(c, tier, 0.2 if tier == "quick" else 0.1, profile=profile)
+    layerc.inlines(c, tier, 0.2 if tier == "quick" else 0.1, profile=profile, proofs=(tier != "quick"))   # Props/Inlines.v is re-checked in C01 and INLINES_TIE
     _t1 = _time.time()
     # the block openers: Props/C13.v states their inertness about Model/Blocks.v (parse_blocks); the tie makes it a
     # statement about the compiled block parser
-    layerc.blocks(c, tier, 0.08 if tier == "quick" else 0.1)
+    layerc.blocks(c, tier, 0.08 if tier == "quick" else 0.1, proofs=(tier != "quick"))   # Props/Blocks.v is re-checked in C01, C20 and BLOCKS_TIE
     _t2 = _time.time()
     # the whole parser as one function: the composition theorems of Props/C13.v (C13_parse_*, C13_html_*) are about
     # Model/Parse.v parse_document_model; its end-to-end tie to the compiled parse_document makes them statements about the
